@@ -5,7 +5,9 @@ From Fabio Require Import Lib.Outcome Lib.Bytes Model.ClientHello Proofs.ClientH
 Import ListNotations.
 Local Open Scope N_scope.
 
-(* The parser never crashes, whatever the bytes. *)
+(* ============ clause (c): no input makes the extraction panic or read out of bounds ============ *)
+(* The parser never crashes, whatever the bytes (every Go index / slice expression of the
+   model is a checked access that yields [Panic] where Go's run-time check would fire). *)
 Theorem C10_unmarshal_never_panics : forall d : str, read_server_name d <> Panic.
 Proof. exact read_server_name_never_panics. Qed.
 Print Assumptions C10_unmarshal_never_panics.
@@ -14,8 +16,26 @@ Theorem C10_buffer_size_never_panics : forall d : str, client_hello_buffer_size 
 Proof. exact buffer_size_never_panics. Qed.
 Print Assumptions C10_buffer_size_never_panics.
 
-(* Nothing beyond the first TLS record is ever asked for: the size is at least the
-   9 peeked bytes + 1, at most record header + record length, at most 5 + 2^14. *)
+Theorem C10_sni_route_never_panics : forall stream, sni_route_name stream <> Panic.
+Proof. exact sni_route_never_panics. Qed.
+Print Assumptions C10_sni_route_never_panics.
+
+(* The loops of the model run on fuel.  Any fuel above the length of the input gives the same
+   result on EVERY input, so the fuel-exhausted branches (which return a normal-looking value)
+   are unreachable from the fuel the model passes ([S (length d)]). *)
+Theorem C10_names_fuel_adequate : forall d f,
+  (length d < f)%nat -> names f d = names (S (length d)) d.
+Proof. exact names_fuel_adequate. Qed.
+Print Assumptions C10_names_fuel_adequate.
+
+Theorem C10_exts_fuel_adequate : forall d sn f,
+  (length d < f)%nat -> exts f d sn = exts (S (length d)) d sn.
+Proof. exact exts_fuel_adequate. Qed.
+Print Assumptions C10_exts_fuel_adequate.
+
+(* ============ clause (b): nothing beyond the first TLS record is buffered ============ *)
+(* The size is at least the 9 peeked bytes + 1, at most record header + record length,
+   at most 5 + 2^14. *)
 Theorem C10_buffer_size_bound : forall d n,
   client_hello_buffer_size d = Ok n ->
   exists rl, u16 d 3 = Ok rl /\ 10 <= n /\ n <= rl + 5 /\ rl <= 16384 /\
@@ -23,9 +43,29 @@ Theorem C10_buffer_size_bound : forall d n,
 Proof. exact buffer_size_bound_lemma. Qed.
 Print Assumptions C10_buffer_size_bound.
 
-(* Correct on every well-formed ClientHello, no bound on the number or size of
-   extensions, names, cipher suites: with at most one server_name extension
-   (RFC 6066) the result is that extension's first host_name ... *)
+Theorem C10_sni_route_bound : forall stream n name,
+  sni_route_name stream = Ok (n, name) ->
+  exists rl, u16 stream 3 = Ok rl /\ 10 <= n /\ n <= rl + 5 /\ n <= 16389 /\ n <= nlen stream.
+Proof. exact sni_route_bound. Qed.
+Print Assumptions C10_sni_route_bound.
+
+(* ============ clause (a): on every well-formed ClientHello the name is the hello's ============ *)
+(* [wf_hello]: RFC 5246 7.4.1.2 shape; every field a byte string that fits its length
+   prefix.  Its encoding is then a string of bytes: the theorems' domain consists of
+   byte strings. *)
+Theorem C10_enc_handshake_bytes : forall h, wf_hello h -> all_bytes (enc_handshake h).
+Proof. exact enc_handshake_bytes. Qed.
+Print Assumptions C10_enc_handshake_bytes.
+
+Theorem C10_enc_record_bytes : forall hi lo h,
+  hi < 256 -> lo < 256 -> wf_hello h -> nlen (enc_handshake h) < 65536 ->
+  all_bytes (enc_record hi lo h).
+Proof. exact enc_record_bytes. Qed.
+Print Assumptions C10_enc_record_bytes.
+
+(* No bound on the number or size of extensions, names, cipher suites beyond what the length
+   prefixes can carry: with at most one extension per type (RFC 8446 4.2) the result is the
+   server_name extension's first host_name ... *)
 Theorem C10_read_encode : forall h es e l,
   wf_hello h -> h_exts h = Some es -> NoDup (map ext_type es) -> In e es -> is_sni_ext e l ->
   read_server_name (enc_handshake h) = Ok (match sni_of_list l with Some n => n | None => [] end).
@@ -40,33 +80,147 @@ Theorem C10_read_encode_no_sni : forall h,
 Proof. exact read_encode_no_sni. Qed.
 Print Assumptions C10_read_encode_no_sni.
 
-(* The general form (repeated server_name extensions: the last one with a host_name wins,
-   which is what the code does and what [exts_denote] says). *)
+(* The same on RFC-shaped hellos ([rfc_hello]: one extension per type; the ServerNameList is
+   not empty, host names are not empty and have no trailing dot, at most one host_name): the
+   parser returns THE host_name of THE list, or nothing. *)
+Theorem C10_rfc_hello_read : forall h,
+  wf_hello h -> rfc_hello h ->
+  exists r, read_server_name (enc_handshake h) = Ok r /\ hello_denotes h r /\
+    match h_exts h with
+    | None => r = []
+    | Some es =>
+        (forall e, In e es -> ext_type e <> 0) /\ r = [] \/
+        exists e l, In e es /\ is_sni_ext e l /\ rfc_sni_list l /\
+                    r = match sni_of_list l with Some n => n | None => [] end
+    end.
+Proof. exact rfc_hello_read. Qed.
+Print Assumptions C10_rfc_hello_read.
+
+(* MECHANISM LEMMAS (not coverage of the property by themselves: [exts_denote] and [exts_parse]
+   describe the parser's own left fold — the last server_name extension that has a host_name
+   wins; bytes after the first host_name entry of a list are not read). They are what the
+   completeness direction of [C10_sni_route_exact] rests on. *)
 Theorem C10_read_encode_general : forall h r,
   wf_hello h -> hello_denotes h r -> read_server_name (enc_handshake h) = Ok r.
 Proof. exact read_encode_lemma. Qed.
 Print Assumptions C10_read_encode_general.
 
-(* The path through SNIProxy.ServeTCP (peek 9, size, read that many, parse data[5:]):
-   never crashes on any stream, never consumes a byte beyond the first record, and on a
-   stream that starts with a record carrying a well-formed hello it finds the name and
-   consumes exactly that record, whatever bytes follow. *)
-Theorem C10_sni_route_never_panics : forall stream, sni_route_name stream <> Panic.
-Proof. exact sni_route_never_panics. Qed.
-Print Assumptions C10_sni_route_never_panics.
+Theorem C10_read_parse : forall h r,
+  wf_hello h -> hello_parses h r -> read_server_name (enc_handshake h) = Ok r.
+Proof. exact read_parse_lemma. Qed.
+Print Assumptions C10_read_parse.
 
-Theorem C10_sni_route_bound : forall stream n name,
-  sni_route_name stream = Ok (n, name) ->
-  exists rl, u16 stream 3 = Ok rl /\ 10 <= n /\ n <= rl + 5 /\ n <= 16389 /\ n <= nlen stream.
-Proof. exact sni_route_bound. Qed.
-Print Assumptions C10_sni_route_bound.
-
+(* The path through SNIProxy.ServeTCP (peek 9, size, read that many, parse data[5:]): on a
+   stream that starts with a record carrying a well-formed hello it finds the name and consumes
+   exactly that record, whatever bytes follow ... *)
 Theorem C10_sni_route_encode : forall hi lo h r extra,
   wf_hello h -> hello_denotes h r -> nlen (enc_handshake h) <= 16384 ->
   sni_route_name (enc_record hi lo h ++ extra) = Ok (nlen (enc_record hi lo h), r).
 Proof. exact sni_route_encode. Qed.
 Print Assumptions C10_sni_route_encode.
 
-(* non-vacuity: a concrete hello meets the hypotheses *)
+(* ... and when the record is longer than the message (hl + 4 < rl) exactly header + message. *)
+Theorem C10_sni_route_parse : forall hi lo rl h r extra,
+  wf_hello h -> hello_parses h r ->
+  nlen (enc_handshake h) <= rl -> rl <= 16384 ->
+  sni_route_name ([22; hi; lo] ++ enc16 rl ++ enc_handshake h ++ extra)
+  = Ok (5 + nlen (enc_handshake h), r).
+Proof. exact sni_route_parse. Qed.
+Print Assumptions C10_sni_route_parse.
+
+(* ============ clause (d): malformed or truncated input is rejected ============ *)
+(* SOUNDNESS, the converse of the above.  If a stream of bytes is accepted (name [r], [n]
+   bytes consumed) then those [n] bytes ARE a handshake record header (any version bytes),
+   a record length [rl] <= 2^14 and the complete encoding of a well-formed ClientHello:
+   every length field is consistent with the bytes that follow it and nothing is left over
+   inside the message.  What the parser does not guarantee, stated exactly: [rl] may exceed
+   the message (the record's remaining bytes are not consumed); [hello_parses] instead of
+   [hello_denotes] (see [exts_parse], [sni_body]: bytes after the first host_name entry inside
+   a server_name list are arbitrary; server_name may repeat). *)
+Theorem C10_sni_route_sound : forall s n r,
+  all_bytes s -> sni_route_name s = Ok (n, r) ->
+  exists hi lo rl h,
+    wf_hello h /\ hello_parses h r /\
+    firstn (N.to_nat n) s = [22; hi; lo] ++ enc16 rl ++ enc_handshake h /\
+    n = 5 + nlen (enc_handshake h) /\ nlen (enc_handshake h) <= rl /\ rl <= 16384.
+Proof. exact sni_route_sound. Qed.
+Print Assumptions C10_sni_route_sound.
+
+(* Both directions: the exact set of byte streams that are routed. *)
+Theorem C10_sni_route_exact : forall s n r,
+  all_bytes s ->
+  (sni_route_name s = Ok (n, r) <->
+   exists hi lo rl h extra,
+     wf_hello h /\ hello_parses h r /\
+     s = [22; hi; lo] ++ enc16 rl ++ enc_handshake h ++ extra /\
+     n = 5 + nlen (enc_handshake h) /\ nlen (enc_handshake h) <= rl /\ rl <= 16384).
+Proof. exact sni_route_exact. Qed.
+Print Assumptions C10_sni_route_exact.
+
+(* If moreover the hello is RFC-shaped, the name routed on is the one its list denotes. *)
+Theorem C10_sni_route_sound_rfc : forall s n r,
+  all_bytes s -> sni_route_name s = Ok (n, r) ->
+  exists hi lo rl h,
+    wf_hello h /\
+    firstn (N.to_nat n) s = [22; hi; lo] ++ enc16 rl ++ enc_handshake h /\
+    (rfc_hello h -> hello_denotes h r).
+Proof. exact sni_route_sound_rfc. Qed.
+Print Assumptions C10_sni_route_sound_rfc.
+
+(* TRUNCATION: every strict prefix of what an accepted stream had consumed is rejected
+   (Err 10: Peek / ReadFull run out of bytes), for arbitrary streams ... *)
+Theorem C10_sni_route_truncated : forall s n r k,
+  sni_route_name s = Ok (n, r) -> (k < N.to_nat n)%nat ->
+  sni_route_name (firstn k s) = Err 10.
+Proof. exact sni_route_truncated. Qed.
+Print Assumptions C10_sni_route_truncated.
+
+(* ... in particular every strict prefix of a record that carries a well-formed hello. *)
+Theorem C10_enc_record_truncated : forall hi lo h r k,
+  wf_hello h -> hello_denotes h r -> nlen (enc_handshake h) <= 16384 ->
+  (k < length (enc_record hi lo h))%nat ->
+  sni_route_name (firstn k (enc_record hi lo h)) = Err 10.
+Proof. exact enc_record_truncated. Qed.
+Print Assumptions C10_enc_record_truncated.
+
+(* OPEN FINDINGS: server_name data that RFC 8446 4.2 / RFC 6066 3 forbid and a standard TLS
+   server rejects is accepted and routed on.  Each theorem exhibits a well-formed hello that is
+   not RFC-shaped and is routed on a non-empty name: (F-C10-1) two server_name extensions, the
+   last wins; (F-C10-2) a second host_name after the first, the first wins (nothing after the
+   first host_name entry is read); (F-C10-3) a host_name with a trailing dot. *)
+Theorem C10_duplicate_sni_routed_refuted :
+  exists h r, wf_hello h /\
+    sni_route_name (enc_record 3 1 h) = Ok (nlen (enc_record 3 1 h), r) /\ r <> [] /\ ~ rfc_hello h.
+Proof. exact duplicate_sni_routed_refuted. Qed.
+Print Assumptions C10_duplicate_sni_routed_refuted.
+
+Theorem C10_second_host_name_routed_refuted :
+  exists h r, wf_hello h /\
+    sni_route_name (enc_record 3 1 h) = Ok (nlen (enc_record 3 1 h), r) /\ r <> [] /\ ~ rfc_hello h.
+Proof. exact second_host_name_routed_refuted. Qed.
+Print Assumptions C10_second_host_name_routed_refuted.
+
+Theorem C10_trailing_dot_routed_refuted :
+  exists h r, wf_hello h /\
+    sni_route_name (enc_record 3 1 h) = Ok (nlen (enc_record 3 1 h), r) /\ r <> [] /\ ~ rfc_hello h.
+Proof. exact trailing_dot_routed_refuted. Qed.
+Print Assumptions C10_trailing_dot_routed_refuted.
+
+(* ============ non-vacuity: concrete inputs meet the hypotheses ============ *)
 Theorem C10_nonvacuous : wf_hello ex_hello /\ hello_denotes ex_hello (bs "foo.com"%string).
 Proof. exact ex_hello_wf. Qed.
+Print Assumptions C10_nonvacuous.
+
+(* the premises of C10_read_encode and C10_rfc_hello_read *)
+Theorem C10_nonvacuous_rfc :
+  exists es e l, h_exts ex_hello = Some es /\ NoDup (map ext_type es) /\ In e es /\ is_sni_ext e l /\
+                 rfc_hello ex_hello.
+Proof. exact ex_hello_rfc_premises. Qed.
+Print Assumptions C10_nonvacuous_rfc.
+
+(* the premises of C10_sni_route_sound / _truncated *)
+Theorem C10_nonvacuous_sound :
+  all_bytes (enc_record 3 1 ex_hello ++ [23; 3; 3]) /\
+  sni_route_name (enc_record 3 1 ex_hello ++ [23; 3; 3]) = Ok (nlen (enc_record 3 1 ex_hello), bs "foo.com"%string).
+Proof. exact ex_route_sound_nonvacuous. Qed.
+Print Assumptions C10_nonvacuous_sound.
